@@ -1145,4 +1145,243 @@ theorem mem_mergeBy {α : Type} (sched : List Nat) (qs : List (List α)) (y : α
       obtain ⟨x, qs'⟩ := p
       simp only [List.mem_cons, ih qs', popAt_mem hp y]
 
+/-! ### names of the per-cpu files -/
+
+/-- value of a string of decimal digits -/
+def dval (bs : Bytes) : Nat := bs.foldl (fun a b => a * 10 + (b.toNat - 48)) 0
+
+def isDig (b : UInt8) : Bool := decide (48 ≤ b.toNat) && decide (b.toNat ≤ 57)
+
+theorem dval_snoc (a : Bytes) (d : UInt8) : dval (a ++ [d]) = dval a * 10 + (d.toNat - 48) := by
+  simp [dval, List.foldl_append]
+
+theorem digit_toNat (n : Nat) : (UInt8.ofNat (48 + n % 10)).toNat = 48 + n % 10 := by
+  simp [UInt8.toNat_ofNat']
+  omega
+
+/-- `%u`: the digits printed for `n` stand in front of the accumulator, are not empty, are digits, and read
+    back as `n` -/
+theorem decBytesAux_spec : ∀ fuel n acc, n < fuel →
+    ∃ ds, decBytesAux fuel n acc = ds ++ acc ∧ ds ≠ [] ∧ (∀ b ∈ ds, isDig b = true) ∧ dval ds = n
+  | 0, n, _, h => by omega
+  | fuel + 1, n, acc, h => by
+    unfold decBytesAux
+    simp only []
+    have hd : isDig (UInt8.ofNat (48 + n % 10)) = true := by
+      simp only [isDig, digit_toNat, Bool.and_eq_true, decide_eq_true_eq]; omega
+    split
+    · rename_i h0
+      refine ⟨[UInt8.ofNat (48 + n % 10)], rfl, by simp, ?_, ?_⟩
+      · intro b hb; rw [List.mem_singleton.mp hb]; exact hd
+      · simp only [dval, List.foldl, digit_toNat]; omega
+    · rename_i h0
+      obtain ⟨ds, h1, _, h3, h4⟩ := decBytesAux_spec fuel (n / 10) (UInt8.ofNat (48 + n % 10) :: acc) (by omega)
+      refine ⟨ds ++ [UInt8.ofNat (48 + n % 10)], by rw [h1, List.append_assoc]; rfl, by simp, ?_, ?_⟩
+      · intro b hb
+        rcases List.mem_append.mp hb with hb | hb
+        · exact h3 b hb
+        · rw [List.mem_singleton.mp hb]; exact hd
+      · rw [dval_snoc, h4, digit_toNat]
+        omega
+
+theorem decBytes_spec (n : Nat) :
+    decBytes n ≠ [] ∧ (∀ b ∈ decBytes n, isDig b = true) ∧ dval (decBytes n) = n := by
+  obtain ⟨ds, h1, h2, h3, h4⟩ := decBytesAux_spec (n + 1) n [] (by omega)
+  simp only [List.append_nil] at h1
+  unfold decBytes
+  rw [h1]
+  exact ⟨h2, h3, h4⟩
+
+theorem decBytes_inj {a b : Nat} (h : decBytes a = decBytes b) : a = b := by
+  have := congrArg dval h
+  rwa [(decBytes_spec a).2.2, (decBytes_spec b).2.2] at this
+
+/-- the first character of `%d`: a digit or the minus sign -/
+theorem fmtInt_head (i : Int) : ∃ c r, fmtInt i = c :: r ∧ (c = 45 ∨ isDig c = true) := by
+  unfold fmtInt
+  split
+  · exact ⟨45, _, rfl, Or.inl rfl⟩
+  · obtain ⟨hne, hd, _⟩ := decBytes_spec i.natAbs
+    cases hc : decBytes i.natAbs with
+    | nil => exact absurd hc hne
+    | cons c r => exact ⟨c, r, rfl, Or.inr (hd c (by simp [hc]))⟩
+
+theorem fmtInt_inj {i j : Int} (h : fmtInt i = fmtInt j) : i = j := by
+  unfold fmtInt at h
+  obtain ⟨_, hdi, _⟩ := decBytes_spec i.natAbs
+  obtain ⟨_, hdj, _⟩ := decBytes_spec j.natAbs
+  split at h <;> split at h
+  · have := decBytes_inj (List.cons.inj h).2; omega
+  · rename_i hi hj
+    cases hc : decBytes j.natAbs with
+    | nil => exact absurd hc (decBytes_spec _).1
+    | cons c r =>
+      rw [hc] at h
+      have h45 : c = 45 := (List.cons.inj h).1.symm
+      have := hdj c (by simp [hc])
+      subst h45
+      simp [isDig] at this
+  · rename_i hi hj
+    cases hc : decBytes i.natAbs with
+    | nil => exact absurd hc (decBytes_spec _).1
+    | cons c r =>
+      rw [hc] at h
+      have h45 : c = 45 := (List.cons.inj h).1
+      have := hdi c (by simp [hc])
+      subst h45
+      simp [isDig] at this
+  · have := decBytes_inj h; omega
+
+theorem toInt32_inj {a b : Nat} (ha : a < 2 ^ 32) (hb : b < 2 ^ 32) (h : toInt32 a = toInt32 b) : a = b := by
+  unfold toInt32 at h
+  rw [Nat.mod_eq_of_lt ha, Nat.mod_eq_of_lt hb] at h
+  split at h <;> split at h <;> omega
+
+/-- different cpus, different files -/
+theorem perfName_inj {a b : Nat} (ha : a < 2 ^ 32) (hb : b < 2 ^ 32) (h : perfName a = perfName b) : a = b := by
+  unfold perfName at h
+  have h1 := List.append_cancel_right h
+  have h2 := List.append_cancel_left h1
+  exact toInt32_inj ha hb (fmtInt_inj h2)
+
+theorem perfName_ne_dataName (cpu tid : Nat) : dataName tid ≠ perfName cpu := by
+  intro h
+  obtain ⟨c, r, hc, hd⟩ := fmtInt_head (toInt32 tid)
+  simp only [dataName, perfName, hc, List.cons_append] at h
+  have : c = 112 := (List.cons.inj h).1
+  subst this
+  rcases hd with hd | hd
+  · exact absurd hd (by decide)
+  · simp [isDig] at hd
+
+theorem perfName_ne_kernelName (cpu c : Nat) : kernelName c ≠ perfName cpu := by
+  intro h
+  simp only [kernelName, perfName, List.cons_append] at h
+  exact absurd (List.cons.inj h).1 (by decide)
+
+theorem perfName_ne_infoName (cpu : Nat) : infoName ≠ perfName cpu := by
+  intro h
+  simp only [infoName, perfName, List.cons_append] at h
+  exact absurd (List.cons.inj h).1 (by decide)
+
+theorem perfName_ne_defaultOpts (cpu : Nat) : defaultOptsName ≠ perfName cpu := by
+  intro h
+  simp only [defaultOptsName, perfName, List.cons_append] at h
+  exact absurd (List.cons.inj h).1 (by decide)
+
+/-- the payloads addressed to perf-cpuN.dat are the perf messages for cpu N, provided no metadata file is
+    sent under that name -/
+theorem partsFor_perfName (cpu : Nat) (hc : cpu < 2 ^ 32) (ms : List Msg) (hwf : ∀ m ∈ ms, m.WF)
+    (hmeta : ∀ m ∈ ms, ∀ n c, m = .file n c → n ≠ perfName cpu) :
+    partsFor (perfName cpu) ms = perfParts cpu ms := by
+  induction ms with
+  | nil => rfl
+  | cons m ms ih =>
+    have ih' := ih (fun m' h => hwf m' (List.mem_cons_of_mem _ h)) (fun m' h => hmeta m' (List.mem_cons_of_mem _ h))
+    have hw := hwf m List.mem_cons_self
+    cases m with
+    | dirName n => simpa [partsFor, perfParts, fileOf] using ih'
+    | end_ => simpa [partsFor, perfParts, fileOf] using ih'
+    | data tid b =>
+      have := perfName_ne_dataName cpu tid
+      simpa [partsFor, perfParts, fileOf, this] using ih'
+    | kernel c b =>
+      have := perfName_ne_kernelName cpu c
+      simpa [partsFor, perfParts, fileOf, this] using ih'
+    | info h i =>
+      have := perfName_ne_infoName cpu
+      simpa [partsFor, perfParts, fileOf, this] using ih'
+    | file n c =>
+      have := hmeta (.file n c) List.mem_cons_self n c rfl
+      simpa [partsFor, perfParts, fileOf, this] using ih'
+    | perf c b =>
+      by_cases hcc : c = cpu
+      · subst hcc
+        simpa [partsFor, perfParts, fileOf] using ih'
+      · have : perfName c ≠ perfName cpu := fun h => hcc (perfName_inj hw.1 hc h)
+        simpa [partsFor, perfParts, fileOf, this, hcc] using ih'
+
+/-! ### the perf readers: empty files change nothing -/
+
+theorem withEvents_nil_cons (r : List (List PEv)) : withEvents ([] :: r) = withEvents r := by
+  simp [withEvents]
+
+theorem withEvents_cons_cons (e : PEv) (es : List PEv) (r : List (List PEv)) :
+    withEvents ((e :: es) :: r) = (e :: es) :: withEvents r := by
+  simp [withEvents]
+
+theorem withEvents_idem (fs : List (List PEv)) : withEvents (withEvents fs) = withEvents fs := by
+  simp [withEvents, List.filter_filter]
+
+theorem withEvents_tail (es : List PEv) (r : List (List PEv)) :
+    withEvents (es :: withEvents r) = withEvents (es :: r) := by
+  cases es with
+  | nil => rw [withEvents_nil_cons, withEvents_nil_cons, withEvents_idem]
+  | cons e es => rw [withEvents_cons_cons, withEvents_cons_cons, withEvents_idem]
+
+/-- one round of the merge sees only the files that have events: it picks the same event, and leaves the
+    same files with events -/
+theorem perfBest_withEvents : ∀ fs : List (List PEv),
+    (perfBest (withEvents fs)).map (fun x => (x.1, withEvents x.2)) =
+      (perfBest fs).map (fun x => (x.1, withEvents x.2))
+  | [] => rfl
+  | [] :: r => by
+    rw [withEvents_nil_cons, perfBest_withEvents r]
+    simp only [perfBest, Option.map_map]
+    congr 1
+  | (e :: es) :: r => by
+    have ih := perfBest_withEvents r
+    rw [withEvents_cons_cons]
+    simp only [perfBest]
+    cases h1 : perfBest r with
+    | none =>
+      rw [h1] at ih
+      cases h2 : perfBest (withEvents r) with
+      | none => simp [withEvents_tail]
+      | some y => rw [h2] at ih; simp at ih
+    | some x =>
+      rw [h1] at ih
+      cases h2 : perfBest (withEvents r) with
+      | none => rw [h2] at ih; simp at ih
+      | some y =>
+        rw [h2] at ih
+        simp only [Option.map_some, Option.some.injEq, Prod.mk.injEq] at ih
+        obtain ⟨ih1, ih2⟩ := ih
+        simp only [ih1]
+        split
+        · simp only [Option.map_some, withEvents_cons_cons, ih2]
+        · simp [withEvents_tail]
+
+theorem perfMerge_congr : ∀ (n : Nat) (fs gs : List (List PEv)), withEvents fs = withEvents gs →
+    perfMerge n fs = perfMerge n gs
+  | 0, _, _, _ => rfl
+  | n + 1, fs, gs, h => by
+    have hf := perfBest_withEvents fs
+    have hg := perfBest_withEvents gs
+    rw [h] at hf
+    have hfg := hf.symm.trans hg
+    simp only [perfMerge]
+    cases h1 : perfBest fs with
+    | none =>
+      rw [h1] at hfg
+      cases h2 : perfBest gs with
+      | none => rfl
+      | some y => rw [h2] at hfg; simp at hfg
+    | some x =>
+      rw [h1] at hfg
+      cases h2 : perfBest gs with
+      | none => rw [h2] at hfg; simp at hfg
+      | some y =>
+        rw [h2] at hfg
+        simp only [Option.map_some, Option.some.injEq, Prod.mk.injEq] at hfg
+        simp only [hfg.1]
+        rw [perfMerge_congr n x.2 y.2 hfg.2]
+
+/-- the dump labels of the repaired printer are the cpu numbers of the files with data -/
+theorem dumpLabelsFrom_fixed : ∀ (i : Nat) (fs : List (Nat × Bool)),
+    dumpLabelsFrom true i fs = (fs.filter (·.2)).map (·.1)
+  | _, [] => rfl
+  | i, (cpu, has) :: r => by
+    cases has <;> simp [dumpLabelsFrom, dumpLabelsFrom_fixed (i + 1) r]
+
 end Uft.Net
